@@ -280,7 +280,13 @@ package types
 //@   pure
 //@   ensures result == govLazyReward[h] && 0 <= result && result < 2^40
 
+// crediting an account: exactly the named account's balance grows, by exactly amt (C02, C12, C13)
 //@ func (h IAccountHandler) Reward(to, amt, exec)
 //@   requires amt != nil
 //@   modifies mem(uint256.Int), allmaps(memItems.gotItems), itemkey, itemenc
 //@   allocates Account, uint256.Int
+//@   ensures items_same()
+//@   ensures forall x :: old(allocated(x)) && x != acct_at(h, content(to), exec).Balance ==> u(x) == old(u(x))       [C02,C13]
+//@   ensures result == nil ==> acct_at(h, content(to), exec) != nil && acct_at(h, content(to), exec).Balance != nil && isbal(acct_at(h, content(to), exec).Balance)
+//@   ensures result == nil && !fresh(acct_at(h, content(to), exec).Balance) && old(u(acct_at(h, content(to), exec).Balance)) + old(u(amt)) < 2^256 ==> u(acct_at(h, content(to), exec).Balance) == old(u(acct_at(h, content(to), exec).Balance)) + old(u(amt))   [C12,C13]
+//@   ensures result != nil && !fresh(acct_at(h, content(to), exec).Balance) ==> u(acct_at(h, content(to), exec).Balance) == old(u(acct_at(h, content(to), exec).Balance))   [C05]
